@@ -18,6 +18,8 @@ package lexer
 //@ spec isSpaceC(c int) bool = c == ' ' || c == '\t' || c == '\n' || c == '\r'
 //@ spec isIdentC(c int) bool = ('a' <= c && c <= 'z') || ('A' <= c && c <= 'Z') || c == '_'
 //@ spec isNumberC(c int) bool = '0' <= c && c <= '9'
+//@ spec isFixedSpelling(t token.TokenType) bool = (token.ADD <= t && t <= token.SEMI) || (token.TRUE <= t && t <= token.IN)
+//@ spec isDirectiveType(t token.TokenType) bool = token.IF <= t && t <= token.DUMP
 //@ spec live(t token.TokenType) bool = t != token.EOF && t != token.ILLEGAL
 
 // ghost: byte offset at which the current token began (set by tokenBegins)
@@ -41,6 +43,12 @@ package lexer
 //@      && (t.Type != token.EOF && l.pos > 0 ==> int(t.Pos.EndLine) == lineOf(l.input, l.pos-1) && int(t.Pos.EndCol) == colOf(l.input, l.pos-1))
 //@      && (t.Type != token.EOF && l.pos == 0 ==> t.Pos.EndLine == 0 && t.Pos.EndCol == 0)
 //@      && (t.Type == token.EOF ==> int(t.Pos.EndLine) == lineOf(l.input, l.pos) && int(t.Pos.EndCol) == colOf(l.input, l.pos))
+
+// the token text is exactly the bytes [a, b) of the source (extensional, byte by byte)
+//@ pred textIs(lit string, s string, a int, b int) = len(lit) == b-a && forall(k, 0, len(lit), int(lit[k]) == byteAt(s, a+k))
+//@ pred at1(l *Lexer, c int) = byteAt(l.input, l.pos) == c
+//@ pred at2(l *Lexer, c int, d int) = byteAt(l.input, l.pos) == c && byteAt(l.input, l.pos+1) == d
+//@ pred commentAt(s string, p int) = byteAt(s, p) == '{' && byteAt(s, p+1) == '{' && byteAt(s, p+2) == '-' && byteAt(s, p+3) == '-'
 
 //@ pred Advance(l *Lexer, p0 int, t token.Token, n int) = LexInv(l) && l.pos == p0+n && l.startPos == p0 && TokSpan(l, t)
 
@@ -73,7 +81,8 @@ package lexer
 //@   modifies nothing
 
 //@ func (l *Lexer) bracesToken
-//@   requires LexInv(l)
+//@   requires LexInv(l) && textIs(literal, l.input, l.pos, l.pos+2)
+//@   ensures textIs(result.Literal, l.input, old(l.pos), l.pos)
 //@   ensures Advance(l, old(l.pos), result, 2) && result.Type == tok && result.Literal == literal
 //@   ensures l.isHTML == (tok != token.LBRACES)
 //@   modifies @POS, @START, l.isHTML
@@ -84,56 +93,65 @@ package lexer
 //@   modifies @START
 
 //@ func (l *Lexer) incrementToken
-//@   requires LexInv(l)
+//@   requires LexInv(l) && at2(l, '+', '+')
+//@   ensures textIs(result.Literal, l.input, old(l.pos), l.pos)
 //@   ensures Advance(l, old(l.pos), result, 2) && result.Type == token.INC
 //@   modifies @POS, @START
 
 //@ func (l *Lexer) addToken
-//@   requires LexInv(l)
+//@   requires LexInv(l) && at1(l, '+')
+//@   ensures textIs(result.Literal, l.input, old(l.pos), l.pos)
 //@   ensures Advance(l, old(l.pos), result, 1) && result.Type == token.ADD
 //@   modifies @POS, @START
 
 //@ func (l *Lexer) assignToken
-//@   requires LexInv(l)
+//@   requires LexInv(l) && at1(l, '=')
+//@   ensures textIs(result.Literal, l.input, old(l.pos), l.pos)
 //@   ensures Advance(l, old(l.pos), result, 1) && result.Type == token.ASSIGN
 //@   modifies @POS, @START
 
 //@ func (l *Lexer) equalToken
-//@   requires LexInv(l)
+//@   requires LexInv(l) && at2(l, '=', '=')
+//@   ensures textIs(result.Literal, l.input, old(l.pos), l.pos)
 //@   ensures Advance(l, old(l.pos), result, 2) && result.Type == token.EQ
 //@   modifies @POS, @START
 
 //@ func (l *Lexer) leftBraceToken
-//@   requires LexInv(l)
+//@   requires LexInv(l) && at1(l, '{')
+//@   ensures textIs(result.Literal, l.input, old(l.pos), l.pos)
 //@   ensures Advance(l, old(l.pos), result, 1) && result.Type == token.LBRACE
 //@   ensures l.countCurlyBraces == old(l.countCurlyBraces)+1
 //@   modifies @POS, @START, l.countCurlyBraces
 
 //@ func (l *Lexer) rightBraceToken
-//@   requires LexInv(l)
+//@   requires LexInv(l) && at1(l, '}')
+//@   ensures textIs(result.Literal, l.input, old(l.pos), l.pos)
 //@   ensures Advance(l, old(l.pos), result, 1) && result.Type == token.RBRACE
 //@   ensures l.countCurlyBraces == old(l.countCurlyBraces)-1
 //@   modifies @POS, @START, l.countCurlyBraces
 
 //@ func (l *Lexer) leftParenthesesToken
-//@   requires LexInv(l)
+//@   requires LexInv(l) && at1(l, '(')
+//@   ensures textIs(result.Literal, l.input, old(l.pos), l.pos)
 //@   ensures Advance(l, old(l.pos), result, 1) && result.Type == token.LPAREN
 //@   modifies @POS, @START, l.countDirectiveParentheses
 
 //@ func (l *Lexer) rightParenthesesToken
-//@   requires LexInv(l)
+//@   requires LexInv(l) && at1(l, ')')
+//@   ensures textIs(result.Literal, l.input, old(l.pos), l.pos)
 //@   ensures Advance(l, old(l.pos), result, 1) && result.Type == token.RPAREN
 //@   modifies @POS, @START, l.countDirectiveParentheses, l.isDirective, l.isHTML
 
 //@ func (l *Lexer) numberToken
 //@   requires LexInv(l) && isNumberC(int(l.char))
 //@   ensures LexInv(l) && l.pos > old(l.pos) && l.startPos == old(l.pos) && TokSpan(l, result)
+//@   ensures textIs(result.Literal, l.input, old(l.pos), l.pos)
 //@   ensures result.Type == token.INT || result.Type == token.FLOAT
 //@   modifies @POS, @START
 
 //@ func (l *Lexer) readNumber
 //@   requires LexInv(l) && isNumberC(int(l.char))
-//@   ensures LexInv(l) && l.pos > old(l.pos) && l.startPos == old(l.pos)
+//@   ensures LexInv(l) && l.pos > old(l.pos) && l.startPos == old(l.pos) && l.pos <= len(l.input)
 //@   ensures result0 == l.input[old(l.pos):l.pos]
 //@   modifies @POS, @START
 //@   loop 0: invariant LexInv(l) && l.startPos == old(l.pos) && l.pos >= old(l.pos) && l.pos <= len(l.input)
@@ -143,7 +161,7 @@ package lexer
 
 //@ func (l *Lexer) readIdentifier
 //@   requires LexInv(l) && isIdentC(int(l.char))
-//@   ensures LexInv(l) && l.pos > old(l.pos) && l.startPos == old(l.pos)
+//@   ensures LexInv(l) && l.pos > old(l.pos) && l.startPos == old(l.pos) && l.pos <= len(l.input)
 //@   ensures result == l.input[old(l.pos):l.pos]
 //@   modifies @POS, @START
 //@   loop 0: invariant LexInv(l) && l.startPos == old(l.pos) && l.pos >= old(l.pos) && l.pos <= len(l.input)
@@ -163,15 +181,18 @@ package lexer
 //@   requires LexInv(l)
 //@   ensures LexInv(l) && l.pos >= old(l.pos) && l.startPos == old(l.pos)
 //@   ensures result0 != token.ILLEGAL ==> l.pos > old(l.pos)
+//@   ensures result0 == token.ILLEGAL || isDirectiveType(result0)
 //@   modifies @POS, @START
 //@   loop 0: invariant LexInv(l) && l.startPos == old(l.pos) && l.pos >= old(l.pos)
 //@   loop 0: invariant tok != token.ILLEGAL ==> l.pos > old(l.pos)
+//@   loop 0: invariant tok == token.ILLEGAL || isDirectiveType(tok)
 //@   loop 0: decreases len(l.input) - l.pos
 
 //@ func (l *Lexer) directiveToken
 //@   requires LexInv(l)
 //@   ensures LexInv(l) && l.pos >= old(l.pos) && l.startPos >= old(l.pos) && TokSpan(l, result)
-//@   ensures live(result.Type) ==> l.pos > old(l.pos)
+//@   ensures live(result.Type) ==> l.pos > old(l.pos) && l.startPos == old(l.pos)
+//@   ensures result.Type == token.ILLEGAL || isDirectiveType(result.Type)
 //@   modifies @POS, @START, l.isDirective, l.isHTML
 
 //@ func (l *Lexer) embeddedCodeToken
@@ -179,13 +200,15 @@ package lexer
 //@   ensures LexInv(l) && l.pos >= old(l.pos) && l.startPos == old(l.pos) && TokSpan(l, result)
 //@   ensures live(result.Type) ==> l.pos > old(l.pos)
 //@   ensures result.Type != token.EOF
+//@   ensures isFixedSpelling(result.Type) || result.Type == token.IDENT || result.Type == token.INT || result.Type == token.FLOAT
+//@        ==> textIs(result.Literal, l.input, old(l.pos), l.pos)
 //@   modifies @POS, @START, l.countCurlyBraces, l.countDirectiveParentheses, l.isDirective, l.isHTML
 
 //@ func (l *Lexer) skipWhitespace
 //@   requires LexInv(l)
 //@   ensures LexInv(l) && l.pos >= old(l.pos) && !isSpaceC(int(l.char))
 //@   ensures forall(i, old(l.pos), l.pos, isSpaceC(byteAt(l.input, i)))
-//@   modifies @POS
+//@   modifies @POS, @START
 //@   loop 0: invariant LexInv(l) && l.pos >= old(l.pos)
 //@   loop 0: invariant forall(i, old(l.pos), l.pos, isSpaceC(byteAt(l.input, i)))
 //@   loop 0: decreases len(l.input) - l.pos
@@ -213,7 +236,16 @@ package lexer
 
 //@ func (l *Lexer) NextToken
 //@   requires LexInv(l)
-//@   ensures LexInv(l) && l.pos >= old(l.pos) && TokSpan(l, result)
+//@   ensures LexInv(l) && TokSpan(l, result)
+//@   ensures old(l.pos) <= l.startPos && l.startPos <= l.pos
+//@   ensures live(result.Type) ==> l.pos > old(l.pos)
+//@   goal ordered: result.Type != token.EOF ==> l.startPos <= l.pos-1
+//@   goal eof: result.Type == token.EOF ==> l.pos == len(l.input) && l.startPos == l.pos
+//@   goal gap-code: old(!l.isHTML) ==> forall(i, old(l.pos), l.startPos, isSpaceC(byteAt(l.input, i)))
+//@        || exists(j, old(l.pos), l.startPos, commentAt(l.input, j))
+//@   goal gap-text: old(l.isHTML) && live(result.Type) ==> l.startPos == old(l.pos) || commentAt(l.input, old(l.pos))
+//@   goal text: isFixedSpelling(result.Type) || result.Type == token.IDENT || result.Type == token.INT || result.Type == token.FLOAT
+//@        ==> textIs(result.Literal, l.input, l.startPos, l.pos)
 //@   decreases len(l.input) - l.pos
 //@   modifies @POS, @START, l.countCurlyBraces, l.countDirectiveParentheses, l.isDirective, l.isHTML
 
